@@ -446,6 +446,9 @@ def run(prog, chk):
     chk.rule("R7.5", "deref_lvalue: the recursive evaluation with depth+1 is dominated by the MAX_VARIABLE_DEREF_DEPTH test; the other "
                      "recursive call only evaluates a Literal")
     deref_depth_rule(prog, chk, "R7.5")
+    contents_only_through_parser_rule(prog, chk)
+    substring_order_rule(prog, chk)
+    arith_cache_key_rule(prog, chk)
 
 
 def _param_order(prog, cal, ia, ib):
@@ -596,3 +599,72 @@ def _arm_operation(b, blks):
             if t.callee.startswith("i64::") or t.callee.startswith("brush_core::arithmetic::"):
                 out.add(t.callee)
     return out
+
+
+INT_PARSERS = ("str::parse", "core::str::traits::FromStr::from_str", "FromStr>::from_str", "::from_str_radix", "ParseIntRadix>::from_str_radix")
+
+
+def contents_only_through_parser_rule(prog, chk):
+    """R7.8: the contents of a variable are an arithmetic *expression* (bash literal forms included: 010 is eight, 0x10 sixteen, 2#101
+    five, `08` an error). In brush_core::arithmetic text is turned into a number only by brush_parser::arithmetic::parse — never by a
+    Rust integer parser, which reads decimal only and accepts what bash rejects."""
+    chk.rule("R7.8", "brush_core::arithmetic converts text to numbers only through brush_parser::arithmetic::parse (no str::parse / from_str / "
+                     "from_str_radix shortcut for variable contents)")
+    n = 0
+    bad = []
+    for b in prog.all_bodies({"brush_core"}):
+        fn = owner(b.name)
+        if not fn.startswith(("brush_core::arithmetic::", "<brush_core::arithmetic::")) and " as brush_core::arithmetic::" not in fn:
+            continue
+        for bb, t in b.calls():
+            cal = t.best_callee() or t.callee or ""
+            if cal == "brush_parser::arithmetic::parse":
+                n += 1
+            if cal.endswith(INT_PARSERS) or cal in ("str::parse",):
+                bad.append((fn, cal, b.loc(t.line)))
+    chk.floor("R7.8", "calls of the arithmetic parser in the evaluator", n, 2)
+    if bad:
+        for fn, cal, loc in bad[:3]:
+            chk.fail("R7.8", fn, "rust-integer-parser-in-evaluator:" + cal.rsplit("::", 1)[-1],
+                     "%s turns text into a number with %s at %s instead of the arithmetic parser: `m=010; $((m))` gives 10 (bash 8), `m=08; $((m+1))` gives 9 "
+                     "silently (bash: value too great for base)" % (fn, cal, loc))
+    else:
+        chk.ok("R7.8", "parser-only", "%d parser calls, no Rust integer parser in brush_core::arithmetic" % n, function="brush_core::arithmetic")
+
+
+def substring_order_rule(prog, chk, rid="R7.9"):
+    """left-to-right side effects in `${v:offset:length}`: the offset expression is evaluated before the length expression."""
+    from dataflow import flow_back
+    chk.rule(rid, "${v:offset:length}: the evaluation of `offset` dominates the evaluation of `length` (side effects left to right)")
+    fnname = "brush_core::expansion::WordExpander::expand_parameter_expr"
+    b = prog.impl_body(fnname)
+    if not chk.anchor(rid, fnname, b):
+        return
+    c = cfg_of(b)
+    d = defs_of(b)
+    offs, lens = [], []
+    for bb, t in b.calls():
+        cal = t.best_callee() or ""
+        if not cal.endswith("ExpandAndEvaluate>::eval") or bb not in c.reach:
+            continue
+        fields = {x for f in flow_back(b, d, t.args[0]) for x in f.field_path()}
+        if "offset" in fields:
+            offs.append(bb)
+        if "length" in fields:
+            lens.append(bb)
+    if not offs or not lens:
+        chk.fail(rid, fnname, "substring-evals-missing", "evaluations of the Substring offset/length not found (%d, %d)" % (len(offs), len(lens)))
+    elif all(any(c.dominates(o, l) for o in offs) for l in lens):
+        chk.ok(rid, "offset-before-length", "offset.eval dominates length.eval", function=fnname)
+    else:
+        chk.fail(rid, fnname, "length-evaluated-before-offset",
+                 "in `${v:offset:length}` the length is evaluated on a path where the offset has not been evaluated yet: `i=1; ${s:i++:i}` uses the old i for the "
+                 "length (bash evaluates left to right)")
+
+
+def arith_cache_key_rule(prog, chk, rid="R7.10"):
+    """the parse cache of the arithmetic parser is keyed by the input text itself (shared with C15)."""
+    from rules import c15
+    chk.rule(rid, "the memo key of brush_parser::arithmetic's parse cache is the input text, reached only through identity conversions "
+                  "(no normalisation: `a++ + b` and `a + ++b` are different expressions)")
+    c15.lossless_key_rule(prog, chk, rid, only=lambda fn: fn.startswith("brush_parser::arithmetic::"))
